@@ -46,6 +46,10 @@ def generate(tier, rng):
             if rng.random() < 0.3:
                 c["ops"][-1] = dict(call, faults={"at": [rng.randrange(0, 8)]})
             yield c
+    for n0, ops in fc.reentrant_histories(rng, tier):
+        # hooks that detach another node while a call is in progress: both flavours must still behave alike
+        yield {"fam": "lockstep", "asrt": False, "n0": n0, "ops": ops, "nmcls": rng.choice(["mixin", "node", "anynode", "eqmixin", "falsymixin"]),
+               "params": _params(rng, n0), "observe_each": rng.random() < 0.5}
     for n0, ops in fc.wide_histories(rng, tier):
         if any(fc.has_nonnode(o) for o in ops):
             continue
